@@ -11,8 +11,9 @@ from extract import ExtractionError, code_tokens, match_brace
 
 STMT = "prqlc/prqlc-parser/src/parser/stmt.rs"
 
-LABELS = ["QH1", "QH2", "QH3", "QH4"]
-FUNCTIONS = ["header_other"]
+LABELS = ["QH1", "QH2", "QH3", "QH4", "QH5", "QH5i"]
+FUNCTIONS = ["header_other", "header_duplicates"]
+OPTIONAL_FUNCTIONS = ["header_duplicates"]
 RLIMIT = 60
 
 ASSUMED = [
@@ -22,13 +23,15 @@ ASSUMED = [
              "(HashMap::new, HashMap::from_iter(vec![(k, v)]), Option<(k, v)>::into_iter().collect()); chumsky's emitter is a shim that counts the errors it is given; "
              "Rich::custom and format! are opaque",
      "keys": ["struct ArgMap", "fn view", "fn remove", "fn is_empty", "struct Emitter", "fn emit", "fn rich_custom", "fn opaque_text", "struct StrMap", "fn strmap_new", "fn strmap_single",
-              "fn option_to_strmap", "fn to_string_lit", "fn ident_text_of", "spec fn ident_text", "fn into_ident", "fn keys_text", "struct Span", "struct Ident", "struct RichErr"]},
+              "fn option_to_strmap", "fn to_string_lit", "fn ident_text_of", "spec fn ident_text", "fn into_ident", "fn keys_text", "struct Span", "struct Ident", "struct RichErr", "struct StrSet", "fn clone_string", "fn strset_new", "fn insert"]},
 ]
 TRUSTED = [
     "oracle (C18): the header selects the dialect when no option is given, and an unknown target is an error: a `target:` argument must therefore either arrive in "
     "QueryDef.other (QH2: an identifier, as its text) or be reported (QH1: anything that is not an identifier) - a target that is silently dropped compiles for the generic "
     "dialect; any argument other than version / target is reported too (QH3)",
-    "the slice drops the combinators around the closure and the `version` argument",
+    "oracle (C18), duplicates: `prql target:sql.mssql target:sql.sqlite` names two targets; the arguments are collected into a map, so one of them would win silently: a name "
+    "that is given twice is reported (QH5)",
+    "the slices drop the combinators around the closure and the `version` argument",
 ]
 
 PRELUDE = r"""
@@ -73,6 +76,15 @@ pub fn option_to_strmap(o: Option<(String, String)>) -> (r: StrMap)
     ensures r.view() == (match o { Some(p) => Map::<Seq<char>, Seq<char>>::empty().insert(p.0@, p.1@), None => Map::<Seq<char>, Seq<char>>::empty() }),
 { unimplemented!() }
 #[verifier::external_body] pub fn to_string_lit(s: &str) -> (r: String) ensures r@ == s@, { unimplemented!() }
+#[verifier::external_body] pub struct StrSet { _p: u8 }
+impl StrSet {
+    pub uninterp spec fn view(&self) -> Set<Seq<char>>;
+    #[verifier::external_body]
+    pub fn insert(&mut self, s: String) -> (r: bool) ensures r == !old(self).view().contains(s@), final(self).view() == old(self).view().insert(s@), { unimplemented!() }
+}
+#[verifier::external_body] pub fn strset_new() -> (r: StrSet) ensures r.view() == Set::<Seq<char>>::empty(), { unimplemented!() }
+#[verifier::external_body] pub fn clone_string(s: &String) -> (r: String) ensures r@ == s@, { unimplemented!() }
+pub open spec fn has_dup(names: Seq<(String, Expr)>, k: int) -> bool { exists|i: int, j: int| 0 <= i < j < k && #[trigger] names[i].0@ == #[trigger] names[j].0@ }
 """
 
 
@@ -127,11 +139,44 @@ def build(X):
               "        // .. and without a target nothing is kept\n"
               "        !args0.view().contains_key(\"target\"@) ==> other.view() == Map::<Seq<char>, Seq<char>>::empty(), // @QH4\n"
               "{\n    let mut args = args0;\n    " + f.text + "\n    other\n}\n")
-    return PRELUDE + f.text + "\n} // verus!\nfn main() {}\n"
+    # ---- duplicates: the statements in front of `let mut args: HashMap<_, _> = args.into_iter().collect();`
+    g = X.fn(STMT, "query_def")
+    md = re.search(r"let mut seen = [^;]*;\s*for \(name, _\) in &args \{", g.text)
+    me = g.text.find("let mut args: HashMap<_, _> = args.into_iter().collect();")
+    dup_text = ""
+    if md and me > md.start():
+        g.name = "header_duplicates"
+        g.text = g.text[md.start():me].strip()
+        g.rewrites.append({"rule": "slice", "what": "statements of the validate closure of query_def from `let mut seen = ..` to the collection of the arguments into a map, wrapped as fn header_duplicates(args, span, emit)"})
+        g.rewrite_re("R5", r"let mut seen = std::collections::HashSet::new\(\);", "let mut seen = strset_new();", count=1, why="HashSet::new")
+        g.rewrite_re("R11", r"for \(name, _\) in &args \{", "let mut verif_k: usize = 0;\n    while verif_k < args.len() {\n        let name = &args[verif_k].0;", count=1,
+                     why="`for (name, _) in &args` as the counter loop over the indices")
+        g.rewrite_re("R5", r"\bname\.clone\(\)", "clone_string(name)", count=None, why="String::clone")
+        g.rewrite_re("R5", r"Rich::custom\(\s*span,\s*format!\((?:[^()]|\([^()]*\))*\),?\s*\)", "rich_custom(span, opaque_text())", count=None, why="format! of the message")
+        g.text = ("pub fn header_duplicates(args: &Vec<(String, Expr)>, span: Span, emit: &mut Emitter)\n"
+                  "    ensures\n"
+                  "        // an argument name that is given twice is reported\n"
+                  "        has_dup(args@, args@.len() as int) ==> final(emit).count@ > old(emit).count@, // @QH5\n"
+                  "{\n    let ghost c0 = emit.count@;\n    " + g.text + "\n}\n")
+        a, b = g._loop_body(1)
+        g.text = g.text[:b] + "\n        verif_k = verif_k + 1;\n    " + g.text[b:]
+        g.loop_contract(1, """
+        invariant
+            verif_k <= args@.len(), emit.count@ >= c0,
+            forall|s: Seq<char>| seen.view().contains(s) <==> (exists|i: int| 0 <= i < verif_k && #[trigger] args@[i].0@ == s),
+            has_dup(args@, verif_k as int) ==> emit.count@ > c0, // @QH5i
+        decreases args@.len() - verif_k,
+        """)
+        dup_text = g.text
+    else:
+        X.items.remove(g)
+        dup_text = ("// the check for repeated argument names does not exist in query_def: the obligation cannot hold\n"
+                    "proof fn header_duplicates_missing() ensures false, // @QH5\n{}\n// no loop to carry an invariant // @QH5i")
+    return PRELUDE + f.text + "\n" + dup_text + "\n} // verus!\nfn main() {}\n"
 
 
 # ----------------------------------------------------------------------------- replay on the real compiler
-REJECT = ['prql target:"sql.mssql"\nfrom t\ntake 3\n', 'prql target:"sql.nonsense"\nfrom t\n', "prql target:[sql.mssql]\nfrom t\n", "prql target:5\nfrom t\n", "prql dialect:mssql\nfrom t\n",
+REJECT = ["prql target:sql.mssql target:sql.sqlite\nfrom t\ntake 3\n", "prql target:sql.sqlite target:sql.sqlite\nfrom t\n", 'prql target:"sql.mssql"\nfrom t\ntake 3\n', 'prql target:"sql.nonsense"\nfrom t\n', "prql target:[sql.mssql]\nfrom t\n", "prql target:5\nfrom t\n", "prql dialect:mssql\nfrom t\n",
           "prql target:sql.nonsense\nfrom t\n"]
 ACCEPT = [("prql target:sql.mssql\nfrom t\ntake 3\n", "FETCH FIRST"), ("prql target:sql.sqlite\nfrom t\ntake 3\n", "LIMIT")]
 
